@@ -123,10 +123,11 @@ theorem leafLoop_finish (W : World Node VH V) (ps : PageSet Node) (r : Req Node 
         | .err e => .err e
         | .ok (.blocked it' dels') => .ok { r with st := .fetchingLeaf dels' it' needed }
         | .ok (.found kv) => .ok { r with st := .completed (some kv) }) = Outcome.ok r' ∧
-      r'.key = r.key ∧ r'.pos = r.pos ∧ r'.pageId = r.pageId ∧ r'.sibs = r.sibs ∧ r'.ios = r.ios ∧ StOK W ps r' none := by
+      r'.key = r.key ∧ r'.pos = r.pos ∧ r'.pageId = r.pageId ∧ r'.sibs = r.sibs ∧ r'.ios = r.ios ∧ StOK W ps r' none ∧
+      (r'.isCompleted = true ∨ fetchPend r'.st = some it.leaf.pending.length) := by
   cases hres with
   | @blocked it' dels' i1 s1 hst hpend hstop hf hm =>
-    refine ⟨_, rfl, rfl, rfl, rfl, rfl, rfl, ?_⟩
+    refine ⟨_, rfl, rfl, rfl, rfl, rfl, rfl, ?_, .inr (by simp only [fetchPend]; rw [hpend])⟩
     unfold StOK
     simp only
     refine ⟨k0, v0, hu, hf, i1, s1, hst, ?_⟩
@@ -135,7 +136,7 @@ theorem leafLoop_finish (W : World Node VH V) (ps : PageSet Node) (r : Req Node 
     unfold tw
     rw [hpend, hstop]
   | found =>
-    refine ⟨_, rfl, rfl, rfl, rfl, rfl, rfl, ?_⟩
+    refine ⟨_, rfl, rfl, rfl, rfl, rfl, rfl, ?_, .inl rfl⟩
     unfold StOK
     simp only
     refine ⟨trivial, ?_⟩
@@ -248,7 +249,7 @@ theorem startLeafFetch_ok (W : World Node VH V) (hOK : W.OK) (ps : PageSet Node)
     simp only
     have hloop := leafLoop_ok W (k0, v0) (itFuel (BtIt.new W.env.primary W.env.secondary W.env.leaves r.pos.raw stop))
       _ _ binv bsh (by rw [itFuel_eq]; omega) hlf
-    obtain ⟨r', h1, h2, h3, h4, h5, h6, h7⟩ := leafLoop_finish W ps r k0 v0 ht hu hloop (neededOf_new W r.pos.raw stop)
+    obtain ⟨r', h1, h2, h3, h4, h5, h6, h7, _⟩ := leafLoop_finish W ps r k0 v0 ht hu hloop (neededOf_new W r.pos.raw stop)
     refine ⟨r', ?_, h2, h3, h4, h5, h6, h7⟩
     rw [← h1]
     generalize leafLoop W.env.vh _ _ _ = res
@@ -262,7 +263,8 @@ theorem rest_provide (W : World Node VH V) {it : BtIt V} {needed : List Nat} {l 
     (hr : ItRest W it needed (some (.leaf l))) :
     ∃ leaf lf, W.env.leaves[l]? = some leaf ∧ provideLeaf it.leaf leaf = .ok lf ∧ BtInv { it with leaf := lf } ∧
       Shape W.env.leaves lf ∧ ({ it with leaf := lf } : BtIt V).spec = it.spec ∧
-      needed = needList (W.env.leaves.length - lf.pending.length) (tw { it with leaf := lf }).length := by
+      needed = needList (W.env.leaves.length - lf.pending.length) (tw { it with leaf := lf }).length ∧
+      lf.pending.length + 1 = it.leaf.pending.length := by
   obtain ⟨inv, sh, hb, hn⟩ := hr
   simp only at hn
   obtain ⟨hl, hneed⟩ := hn
@@ -270,7 +272,7 @@ theorem rest_provide (W : World Node VH V) {it : BtIt V} {needed : List Nat} {l 
   obtain ⟨hpe, hpr⟩ := provideLeaf_head sh hb hp
   obtain ⟨lf, hprov, binv, hspec, _⟩ := btinv_provide inv hb
   obtain ⟨sh', hpend', hstop'⟩ := hpr lf hprov
-  refine ⟨leaf, lf, ?_, by rw [hpe]; exact hprov, binv, sh', hspec, ?_⟩
+  refine ⟨leaf, lf, ?_, by rw [hpe]; exact hprov, binv, sh', hspec, ?_, by rw [hpend', hp]; simp⟩
   · rw [hl]; exact pending_head_index sh hp
   · rw [hneed, tw_cons hp hbs]
     obtain ⟨pre, hpre⟩ := sh.suffix
@@ -288,19 +290,24 @@ theorem leafFetch_supply_ok (W : World Node VH V) (ps : PageSet Node) (r : Req N
     {dels : List Key} {it : BtIt V} {needed : List Nat} (hst : r.st = .fetchingLeaf dels it needed) {l : Nat}
     (hok : StOK W ps r (some (.leaf l))) :
     ∃ leaf, W.env.leaves[l]? = some leaf ∧ ∃ r', continueLeafFetch W.env r (some leaf) = .ok r' ∧ r'.key = r.key ∧
-      r'.pos = r.pos ∧ r'.pageId = r.pageId ∧ r'.sibs = r.sibs ∧ r'.ios = r.ios ∧ StOK W ps r' none := by
+      r'.pos = r.pos ∧ r'.pageId = r.pageId ∧ r'.sibs = r.sibs ∧ r'.ios = r.ios ∧ StOK W ps r' none ∧
+      (r'.isCompleted = true ∨ ∃ n, fetchPend r'.st = some n ∧ fetchPend r.st = some (n + 1)) := by
   unfold StOK at hok
   rw [hst] at hok
   obtain ⟨k0, v0, hu, hf, hrest⟩ := hok
-  obtain ⟨leaf, lf, hleaf, hprov, binv, sh, hspec, hneed⟩ := rest_provide W hrest
+  obtain ⟨leaf, lf, hleaf, hprov, binv, sh, hspec, hneed, hplen⟩ := rest_provide W hrest
   refine ⟨leaf, hleaf, ?_⟩
   unfold continueLeafFetch
   rw [hst]
   simp only [hprov]
   have hloop := leafLoop_ok W (k0, v0) (itFuel { it with leaf := lf }) { it with leaf := lf } dels binv sh
     (by rw [itFuel_eq]; omega) (by rw [hspec]; exact hf)
-  obtain ⟨r', h1, h2, h3, h4, h5, h6, h7⟩ := leafLoop_finish W ps r k0 v0 ht hu hloop hneed
-  refine ⟨r', ?_, h2, h3, h4, h5, h6, h7⟩
+  obtain ⟨r', h1, h2, h3, h4, h5, h6, h7, h8⟩ := leafLoop_finish W ps r k0 v0 ht hu hloop hneed
+  refine ⟨r', ?_, h2, h3, h4, h5, h6, h7, ?_⟩
+  rotate_left
+  · rcases h8 with h8 | h8
+    · exact .inl h8
+    · exact .inr ⟨lf.pending.length, h8, by first | (rw [hst]; simp only [fetchPend]; rw [← hplen]) | (simp only [fetchPend]; rw [← hplen])⟩
   rw [← h1]
   generalize leafLoop W.env.vh _ _ _ = res
   cases res with
@@ -330,7 +337,8 @@ theorem leavesCore_ok (W : World Node VH V) (hOK : W.OK) (ps : PageSet Node) (hp
     (inv : BtInv it) (sh : Shape W.env.leaves it.leaf)
     (hneed : needed = needList (W.env.leaves.length - it.leaf.pending.length) (tw it).length) :
     ∃ ps' r', continueLeavesFetch W.env ps r none = .ok (ps', r') ∧ r'.key = r.key ∧ r'.pos = r.pos ∧
-      r'.pageId = r.pageId ∧ r'.sibs = r.sibs ∧ r'.ios = r.ios ∧ PSInv W ps' ∧ Ext ps ps' ∧ StOK W ps' r' none := by
+      r'.pageId = r.pageId ∧ r'.sibs = r.sibs ∧ r'.ios = r.ios ∧ PSInv W ps' ∧ Ext ps ps' ∧ StOK W ps' r' none ∧
+      (r'.st = .seeking ∨ fetchPend r'.st = some it.leaf.pending.length) := by
   unfold continueLeavesFetch
   rw [hst]
   simp only
@@ -338,7 +346,7 @@ theorem leavesCore_ok (W : World Node VH V) (hOK : W.OK) (ps : PageSet Node) (hp
   generalize collLoop W.env.vh (itFuel it) it coll = res at hloop ⊢
   cases hloop with
   | @blocked it' coll' i1 s1 hb hpend hstop hc hm =>
-    refine ⟨ps, _, rfl, rfl, rfl, rfl, rfl, rfl, hps, ext_refl ps, ?_⟩
+    refine ⟨ps, _, rfl, rfl, rfl, rfl, rfl, rfl, hps, ext_refl ps, ?_, .inr (by simp only [fetchPend]; rw [hpend])⟩
     unfold StOK
     simp only
     refine ⟨hf.pos, hf.six, hf.two, hf.small, hf.node, hf.rng, hc, i1, s1, hb, ?_⟩
@@ -369,14 +377,14 @@ theorem leavesCore_ok (W : World Node VH V) (hOK : W.OK) (ps : PageSet Node) (hp
     cases hc : ps.contains (sextetsOf (r.key.take r.pos.depth)) with
     | true =>
       rw [rc1 hc]
-      refine ⟨ps, _, rfl, rfl, rfl, rfl, rfl, rfl, hps, ext_refl ps, ?_⟩
+      refine ⟨ps, _, rfl, rfl, rfl, rfl, rfl, rfl, hps, ext_refl ps, ?_, .inl rfl⟩
       unfold StOK
       simp only
       exact ⟨hf.six, hf.two, .inl (contains_get hc), .inl trivial⟩
     | false =>
       obtain ⟨ps', e1, e2, e3, e4⟩ := rc2 hc hf.two hf.small hf.node hps
       rw [e1]
-      refine ⟨ps', _, rfl, rfl, rfl, rfl, rfl, rfl, e2, e3, ?_⟩
+      refine ⟨ps', _, rfl, rfl, rfl, rfl, rfl, rfl, e2, e3, ?_, .inl rfl⟩
       unfold StOK
       simp only
       exact ⟨hf.six, hf.two, .inl e4, .inl trivial⟩
@@ -388,11 +396,12 @@ theorem leavesFetch_supply_ok (W : World Node VH V) (hOK : W.OK) (ps : PageSet N
     (hok : StOK W ps r (some (.leaf l))) :
     ∃ leaf, W.env.leaves[l]? = some leaf ∧ ∃ ps' r', continueLeavesFetch W.env ps r (some leaf) = .ok (ps', r') ∧
       r'.key = r.key ∧ r'.pos = r.pos ∧ r'.pageId = r.pageId ∧ r'.sibs = r.sibs ∧ r'.ios = r.ios ∧ PSInv W ps' ∧
-      Ext ps ps' ∧ StOK W ps' r' none := by
+      Ext ps ps' ∧ StOK W ps' r' none ∧
+      (r'.st = .seeking ∨ ∃ n, fetchPend r'.st = some n ∧ fetchPend r.st = some (n + 1)) := by
   unfold StOK at hok
   rw [hst] at hok
   obtain ⟨f1, f2, f3, f4, f5, f6, f7, hrest⟩ := hok
-  obtain ⟨leaf, lf, hleaf, hprov, binv, sh, hspec, hneed⟩ := rest_provide W hrest
+  obtain ⟨leaf, lf, hleaf, hprov, binv, sh, hspec, hneed, hplen⟩ := rest_provide W hrest
   refine ⟨leaf, hleaf, ?_⟩
   have hstep : continueLeavesFetch W.env ps r (some leaf) =
       continueLeavesFetch W.env ps { r with st := .fetchingLeaves page range { it with leaf := lf } needed coll } none := by
@@ -402,8 +411,11 @@ theorem leavesFetch_supply_ok (W : World Node VH V) (hOK : W.OK) (ps : PageSet N
   rw [hstep]
   have ht' : Trail W { r with st := .fetchingLeaves page range { it with leaf := lf } needed coll } :=
     ⟨ht.klen, ht.wf, ht.raw, ht.through, ht.sibs⟩
-  obtain ⟨ps', r', h⟩ := leavesCore_ok W hOK ps hps _ ht' hpid rfl
+  obtain ⟨ps', r', g1, g2, g3, g4, g5, g6, g7, g8, g9, g10⟩ := leavesCore_ok W hOK ps hps _ ht' hpid rfl
     ⟨f1, f2, f3, f4, f5, f6, by rw [hspec]; exact f7⟩ binv sh hneed
-  exact ⟨ps', r', h⟩
+  refine ⟨ps', r', g1, g2, g3, g4, g5, g6, g7, g8, g9, ?_⟩
+  rcases g10 with h | h
+  · exact .inl h
+  · exact .inr ⟨lf.pending.length, h, by first | (rw [hst]; simp only [fetchPend]; rw [← hplen]) | (simp only [fetchPend]; rw [← hplen])⟩
 
 end Nomt.Seek
